@@ -305,7 +305,8 @@ func genNotesInput(r *core.RNG) Input {
 		ot = &in.Types[s.Origin]
 		s.RHS = "local"
 		if r.Bool() {
-			ot.Fields = append(ot.Fields, fld("Loc", named("target", "LInner"), ""))
+			// LIface / LMap: the helper's InSamePkg branch treats interface and map types differently (agreement with C17's model)
+			ot.Fields = append(ot.Fields, fld("Loc", named("target", core.Pick(r, []string{"LInner", "LInner", "LIface", "LMap"})), ""))
 		}
 		if r.Bool() {
 			ot.Fields = append(ot.Fields, fld("u", basic("int"), `k:"v"`))
@@ -345,6 +346,12 @@ func corners() []Input {
 	out = append(out, one([]Field{fld("A", anyTy(), `@x %v 'q' "d"`), fld("R", named("io", "Reader"), "")}, Spec{}))
 	out = append(out, one([]Field{fld("A", basic("int"), ""), fld("F", ifaceLit(), `json:"f"`)}, Spec{})) // known finding: method interface
 	out = append(out, one([]Field{fld("A", basic("int"), ""), fld("F", ifaceLit(), `json:"f"`)}, Spec{Omit: []string{"F"}}))
+	// same-package origin with a field of a same-package struct / interface / map type (helper: InSamePkg branch)
+	for _, ln := range []string{"LInner", "LIface", "LMap"} {
+		l := one([]Field{fld("A", basic("int"), ""), fld("Loc", named("target", ln), `json:"loc"`)}, Spec{})
+		l.Groups[0].Specs[0].RHS = "local"
+		out = append(out, l)
+	}
 	// #31 grouped declaration
 	g := Input{OriginPkg: "origin", LibPkg: "lib", Types: []OriginType{
 		{Name: "T0", Fields: []Field{fld("A", basic("int"), `json:"a"`), fld("B", slice(basic("string")), "")}},
